@@ -55,7 +55,9 @@ type c10Follower struct {
 	PingFailFrom  int    `json:"ping_fail_from"`            // seconds after start from which pings fail (0 = never)
 	RebalErrors   int    `json:"rebal_errors"`              // the first n Rebalance calls return an error
 	RestartInPing bool   `json:"restart_in_ping,omitempty"` // the new process registers while the leader's heart-beat round is still waiting for the dead connection's ping to fail
-	RestartAt     int    `json:"restart_at,omitempty"`      // seconds after start at which the follower's process is replaced: the old connection is dead from then on, the new process registers under the same name
+	// Reconnect: it is the same process that registers again at RestartAt (its connection to the leader broke): same name, same join time
+	Reconnect bool `json:"reconnect,omitempty"`
+	RestartAt int  `json:"restart_at,omitempty"` // seconds after start at which the follower's process is replaced: the old connection is dead from then on, the new process registers under the same name
 }
 
 type c10Inst struct {
@@ -489,13 +491,15 @@ func c10RunLeader(sc drv.Scenario, p *c10Params) drv.Result {
 		}
 	}
 	restarted := map[string]bool{}
+	joinTime := map[string]int64{}
 	total := maxT + 23 // two further heartbeat + monitor rounds (hard-coded 5 s) after the last change, plus retries
 	for time.Since(start) < time.Duration(total)*time.Second {
 		for _, f := range p.Followers {
 			if !added[f.Name] && time.Since(start) >= time.Duration(f.JoinAt)*time.Second {
 				ff := &fakeFollower{name: f.Name, start: start, failFrom: f.PingFailFrom, rebalErr: f.RebalErrors}
 				fol[f.Name] = ff
-				sd.Add(servicediscovery.NewService(ff, f.Name, time.Now().UnixNano()))
+				joinTime[f.Name] = time.Now().UnixNano()
+				sd.Add(servicediscovery.NewService(ff, f.Name, joinTime[f.Name]))
 				added[f.Name] = true
 			}
 			if f.RestartAt > 0 && added[f.Name] && !restarted[f.Name] && time.Since(start) >= time.Duration(f.RestartAt)*time.Second {
@@ -525,7 +529,11 @@ func c10RunLeader(sc drv.Scenario, p *c10Params) drv.Result {
 				}
 				ff := &fakeFollower{name: f.Name, start: start}
 				fol[f.Name] = ff
-				sd.Add(servicediscovery.NewService(ff, f.Name, time.Now().UnixNano()))
+				jt := time.Now().UnixNano()
+				if f.Reconnect && joinTime[f.Name] != 0 {
+					jt = joinTime[f.Name] // the same process: it registers with the join time it has always had
+				}
+				sd.Add(servicediscovery.NewService(ff, f.Name, jt))
 				restarted[f.Name] = true
 				if hold != nil {
 					close(hold)
@@ -547,7 +555,7 @@ func c10RunLeader(sc drv.Scenario, p *c10Params) drv.Result {
 		}
 	}
 	eff := func(f c10Follower) int { // the join time the leader knows: that of the latest registration
-		if f.RestartAt > 0 {
+		if f.RestartAt > 0 && !f.Reconnect {
 			return f.RestartAt
 		}
 		return f.JoinAt
@@ -886,6 +894,19 @@ func init() {
 					// a late joiner whose first assignment push fails: the numbering must still reach it
 					p.Followers = append(p.Followers, c10Follower{Name: "pod-late", JoinAt: 12, RebalErrors: 1})
 				}
+				out = append(out, drv.Scenario{Kind: "leader", Seed: seed, Params: mustJSON(p), TimeoutS: 180, Solo: true})
+			}
+			// a follower whose connection to the leader broke registers again - the same process, same name, same join time -
+			// before (or while) the leader's heart-beat round finds the old connection dead: it stays a numbered member
+			cr := rand.New(rand.NewSource(seed*89 + 3))
+			for i := 0; i < nl/3; i++ {
+				p := c10Params{EarlyRegister: i%2 == 0}
+				k := 1 + cr.Intn(3)
+				for j := 0; j < k; j++ {
+					p.Followers = append(p.Followers, c10Follower{Name: fmt.Sprintf("pod-%d", j), JoinAt: j % 2})
+				}
+				j := cr.Intn(k)
+				p.Followers[j].RestartAt, p.Followers[j].Reconnect, p.Followers[j].RestartInPing = 3+cr.Intn(3), true, i%2 == 1
 				out = append(out, drv.Scenario{Kind: "leader", Seed: seed, Params: mustJSON(p), TimeoutS: 180, Solo: true})
 			}
 			out = append(out, drv.Scenario{Kind: "static", Seed: seed, Params: mustJSON(c10Params{Static: true}), TimeoutS: 60})
